@@ -27,7 +27,9 @@ def run(chk):
         'load that raises must leave the receiver intact. '
         'distinct_nontrivial = distinct (format, order, target kind, flags, '
         'container kind, #roots)')
-    chk.mc('MC_CopyLoad', 'MC_CopyLoad.cfg' if q else 'MC_CopyLoad_deep.cfg', timeout=3000)
+    chk.mc('MC_CopyLoad', 'MC_CopyLoad.cfg' if q else 'MC_CopyLoad_deep.cfg', timeout=5000)
+    if not q:
+        chk.mc('MC_CopyLoad', 'MC_CopyLoad_q5.cfg', timeout=5000)     # build-only operands, one level deeper
     r = tlcrun.model_check('MC_CopyLoad', 'MC_CopyLoad_neg.cfg', 'neg', timeout=600)
     if 'is violated' not in r['out']:
         raise tlcrun.MachineryError('negative configuration MC_CopyLoad_neg was not refuted')
